@@ -55,6 +55,23 @@ inductive NeedsFraming : Expr → Prop
   | listL {a b} : NeedsFraming a → NeedsFraming (.list a b)
   | listR {a b} : NeedsFraming b → NeedsFraming (.list a b)
 
+/-- The (destination, terminator) pair an output action writes to, as a destination-table entry.
+    `-print-file-fid`, the implicit print and `-quit` write no framed record. -/
+def target (a : Action) : Option Target :=
+  match a with
+  | .print => some (.stdout (some '\n')) | .printNull => some (.stdout (some '\x00'))
+  | .printFormatted _ => some (.stdout none)
+  | .filePrint f => some (.file f (some '\n')) | .filePrintNull f => some (.file f (some '\x00'))
+  | .filePrintFormatted f _ => some (.file f none)
+  | _ => none
+
+/-- The actions of a tree, left to right. -/
+def actionsOf : Expr → List Action
+  | .action a => [a]
+  | .prec e | .not e => actionsOf e
+  | .and a b | .or a b | .list a b => actionsOf a ++ actionsOf b
+  | _ => []
+
 /-- Unit tables as the property states them. -/
 def sizeUnitBytes : List Nat := [1, 2, 512, 2^10, 2^20, 2^30, 2^40]
 def timeUnitSeconds : List Nat := [1, 60, 3600, 86400]
